@@ -608,7 +608,8 @@ func cmdLitsTag(args []string) {
 			}
 			observeTag(agg, map[string]string{"json": v})
 			observeTag(agg, map[string]string{"json": "a", "db": v, "xml": "z z"})
-			nm += 2
+			observeTag(agg, map[string]string{"json": "a", "JSON": v, "Json": "c", "jsoN": "d"}) // keys that differ only by case
+			nm += 3
 		}
 	}
 	keyAlphabet := "abcdefghijklmnopqrstuvwxyzABCXYZ0123456789_-.,;!#$%&'()*+/<=>?@[]^`{|}~\\"
